@@ -101,6 +101,44 @@ class Repeat:
         return f"<repeat {self.template} for each char of {self.over}>"
 
 
+class CaseView:
+    """s.lower() / s.upper() of a slice: same length, characters case-mapped."""
+
+    pure_compare = True
+
+    def __init__(self, base: "Slice", how: str):
+        self.base, self.how = base, how
+
+    def _map(self, c):
+        if self.how == "lower":
+            return z3.If(z3.And(c >= 65, c <= 90), c + 32, c)
+        return z3.If(z3.And(c >= 97, c <= 122), c - 32, c)
+
+    def eq(self, I, other):
+        if isinstance(other, str):
+            b = self.base
+            conj = [b.hi - b.lo == len(other)] + [self._map(b.text.ch(b.lo + k)) == ord(c) for k, c in enumerate(other)]
+            return z3.And(conj)
+        raise OutOfSubset("comparison of a case-mapped string")
+
+    def contained_in(self, I, container):
+        from .values import DictObj, ListObj
+
+        keys = list(container.items) if isinstance(container, (DictObj, ListObj)) else None
+        if keys is None:
+            raise OutOfSubset("membership of a symbolic string")
+        r = False
+        for k in keys:
+            r = b_or(r, self.eq(I, k))
+        return r
+
+    def length(self, I):
+        return self.base.length(I)
+
+    def to_str(self, I):
+        return self
+
+
 class Slice:
     """text[lo:hi] with 0 <= lo <= hi <= len (maintained by construction)."""
 
@@ -213,6 +251,15 @@ class Slice:
 
     def is_(self, lo, hi) -> bool:
         return _same(self.lo, lo) and _same(self.hi, hi)
+
+    def method(self, I, name, args, kw):
+        if name in ("lower", "upper") and not args:
+            return CaseView(self, name)
+        if name == "startswith" and len(args) == 1 and isinstance(args[0], str):
+            lit = args[0]
+            conj = [self.hi - self.lo >= len(lit)] + [self.text.ch(self.lo + k) == ord(c) for k, c in enumerate(lit)]
+            return z3.And(conj)
+        raise OutOfSubset(f"str.{name} on a symbolic string")
 
     def __repr__(self):
         return f"<{self.text.name}[{self.lo}:{self.hi}]>"
